@@ -52,13 +52,13 @@ func c15types() []c15type {
 			all = append(all, c15type{"lr-bits", "leafref { path \"/tgtb\"; }", t.gen, t.jv})
 		case "string":
 			all = append(all, c15type{"lr-string", "leafref { path \"/tgts\"; }", t.gen, t.jv})
-		case "lr-string":
-			// a leafref to a leafref to a string
-			all = append(all, c15type{"lr-string2", "leafref { path \"/tgtl2\"; }", t.gen, t.jv})
 		case "identityref":
 			all = append(all, c15type{"lr-ident", "leafref { path \"/tgti\"; }", t.gen, t.jv})
 		}
 	}
+	// a leafref to a leafref to a string
+	str := c15typeNamed(all, "string")
+	all = append(all, c15type{"lr-string2", "leafref { path \"/tgtl2\"; }", str.gen, str.jv})
 	return all
 }
 
